@@ -73,43 +73,63 @@ def rule_o(F):
     return res
 
 
-def rule_a(F):
+CONTAINS = ("CaoHashMap::contains", "CaoHashMap::contains_with_hint", "CaoLangTable::contains")
+
+
+def absent_edges(F, f, depth=0):
+    """blocks of f that are entered only after a `map.contains(key)` probe answered false: the `false` successor of a switch
+    on the result of a contains call, and the continuation of a call of a helper of the table that itself returns only
+    after such a probe answered false (`let index = self.first_free_index_from(n)`: the search loop moved into a callee)"""
     from cao.facts import callee_names, op_local, DefUse
+    from cao import mirutil as mu
+    du = DefUse(f)
+    out = set()
+    n_probes = 0
+    for cb, ct in mu.calls(f):
+        names = callee_names(ct["func"])
+        if any(n.endswith(c) for n in names for c in CONTAINS):
+            n_probes += 1
+            dl = ct["dest"]["l"]
+            for bi, b in enumerate(f.blocks):
+                t = b["term"]
+                if t["k"] != "switch" or op_local(t["discr"]) is None:
+                    continue
+                kind, payload = du.trace_back(op_local(t["discr"]))
+                if (kind == "call" and payload is ct) or op_local(t["discr"]) == dl:
+                    zero = dict((v, bb) for v, bb in t["targets"]).get(0)
+                    if zero is not None:
+                        out.add(zero)
+        elif depth < 2 and ct.get("target") is not None:
+            for n in names:
+                if not n.startswith(TABLE + "::"):
+                    continue
+                h = F.fn(n, required=False)
+                if h is None or not h.mir or h is f:
+                    continue
+                hedges, hprobes = absent_edges(F, h, depth + 1)
+                rets = h.cfg.return_blocks()
+                if hedges and rets and all(any(h.cfg.dominates(z, r) for z in hedges) for r in rets):
+                    out.add(ct["target"])
+                    n_probes += hprobes
+    return out, n_probes
+
+
+def rule_a(F):
+    from cao.facts import callee_names
     from cao import mirutil as mu
     res = []
     f = F.fn(TABLE + "::append")
     cfg = f.cfg
-    du = DefUse(f)
     key = "C07/A/append/key-tested-absent"
-    contains = [(bi, t) for bi, t in mu.calls(f) if any(n.endswith("CaoHashMap::contains") or n.endswith("CaoHashMap::contains_with_hint")
-                                                         or n.endswith("CaoLangTable::contains") for n in callee_names(t["func"]))]
     inserts = [(bi, t) for bi, t in mu.calls(f) if any(n.endswith("CaoLangTable::insert") or n.endswith("::_insert") or n.endswith("CaoHashMap::insert")
                                                         for n in callee_names(t["func"]))]
     if not inserts:
         raise AnchorMissing("insert call in CaoLangTable::append")
-    if not contains:
+    # blocks entered when contains(..) answered false (in append itself or in the helper that searches the free index)
+    edges, probes = absent_edges(F, f)
+    if not probes:
         return [bad("C07.A", key, f.loc(), "append inserts under a key it never tested for presence: an existing row can be overwritten")]
-    # blocks entered when contains(..) answered false
-    absent_edges = set()
-    for cb, ct in contains:
-        dl = ct["dest"]["l"]
-        for bi, b in enumerate(f.blocks):
-            t = b["term"]
-            if t["k"] != "switch":
-                continue
-            if op_local(t["discr"]) is None:
-                continue
-            kind, payload = du.trace_back(op_local(t["discr"]))
-            src = None
-            if kind == "call" and payload is ct:
-                src = True
-            elif op_local(t["discr"]) == dl:
-                src = True
-            if src:
-                zero = dict((v, bb) for v, bb in t["targets"]).get(0)
-                if zero is not None:
-                    absent_edges.add(zero)
-    okp = bool(absent_edges) and all(any(cfg.dominates(z, ib) for z in absent_edges) for ib, _t in inserts)
+    okp = bool(edges) and all(any(cfg.dominates(z, ib) for z in edges) for ib, _t in inserts)
     if okp:
         res.append(ok("C07.A", key, f.loc(), "the insert is dominated by the `absent` edge of map.contains(key)"))
     else:
@@ -138,10 +158,16 @@ def events(f):
     """mutations of the two halves in f: list of dict(half, kind, name, node, ctrl, in_closure)"""
     anc = hu.control_ancestors(f.hir["body"])
     out = []
+    inits = hu.let_inits(f)
     for x in hir_walk(f.hir["body"]):
         if x.get("k") != "mcall":
             continue
         fc = hu.field_chain(x["recv"])
+        # `let map = &mut self.map; .. map.remove(k)`: a local that was bound once to (a borrow of) one half stands for it
+        hops = 0
+        while fc is not None and not fc[1] and fc[0] is not None and len(inits.get(fc[0], [])) == 1 and hops < 4:
+            fc = hu.field_chain(inits[fc[0]][0])
+            hops += 1
         if fc is None or not fc[1]:
             continue
         half = fc[1][-1]
@@ -214,6 +240,14 @@ def rule_s(F):
                 else:
                     res.append(bad("C07.S", key, f.loc(e["node"]["ln"]), "keys.retain drops keys without removing them from the hash part"))
                 continue
+            # `self.keys.pop().and_then(|key| self.map.remove(&key))`: the closure handed to an Option adaptor that runs it exactly
+            # when its receiver is Some is the `Some(key) => ..` arm of a match on that receiver
+            if e["half"] == "keys" and e["kind"] == "del":
+                cont = [d for d in evs if d["half"] == other and d["kind"] == e["kind"] and d["in_closure"] and some_continuation(f, e, d, anc)]
+                if cont:
+                    res.append(ok("C07.S", key, f.loc(e["node"]["ln"]), "%s.%s is matched by map.%s in the continuation that runs for the removed key"
+                                  % (e["half"], e["name"], cont[0]["name"])))
+                    continue
             # direct partner on the same path: the partner's control region must enclose (or equal) this one's, or vice versa
             partners = [d for d in evs if d["half"] == other and d["kind"] == e["kind"] and not d["in_closure"]
                         and (is_prefix(d["ctrl"], e["ctrl"]) or is_prefix(e["ctrl"], d["ctrl"]) or same_arm_family(d["ctrl"], e["ctrl"]))]
@@ -276,6 +310,37 @@ def rule_f(F):
     if n < 1:
         res.append(note("C07.F", "C07/F/no-addition-to-the-key-list", "", "no method adds to the key list (C07.S decides whether one should)"))
     return res
+
+
+RUNS_ON_SOME = ("and_then", "map", "map_or", "inspect", "is_some_and", "filter")
+
+
+def some_continuation(f, e, d, anc):
+    """is d executed, unconditionally, inside a closure that an Option adaptor (and_then / map / ..) applied to the result of
+    e's call runs exactly when that result is Some?  (the adaptor call itself must be on e's path)"""
+    for m in hir_walk(f.hir["body"]):
+        if m.get("k") != "mcall" or m["name"] not in RUNS_ON_SOME or not m["args"]:
+            continue
+        if not any(n.startswith("std::option::Option::") or n.startswith("core::option::Option::") for n in hir_callee(m)):
+            continue
+        clo = hir_strip(m["args"][-1])
+        if clo is None or clo.get("k") != "closure":
+            continue
+        # the receiver is e's call (possibly through further adaptors that keep Some/None)
+        r = hir_strip(m["recv"])
+        if r is not e["node"]:
+            continue
+        # d lies in the closure and nothing in the closure makes it conditional
+        dctrl = d["ctrl"]
+        mctrl = anc.get(id(m), ())
+        if dctrl[:len(mctrl)] != tuple(mctrl) or len(dctrl) != len(mctrl) + 1 or dctrl[-1] != ("closure", id(clo)):
+            continue
+        if tuple(anc.get(id(e["node"]), ())) != tuple(mctrl):
+            continue
+        if any(y.get("k") == "ret" for y in hir_walk(clo["body"]) if y.get("ln", 0) < d["node"].get("ln", 0)):
+            continue
+        return True
+    return False
 
 
 def same_arm_family(a, b):
